@@ -92,6 +92,8 @@ type Engine struct {
 	pathAsserts []string
 	trace  []string
 	abs    *absState
+	pool   []*term.Evaluator
+	PoolHits int
 
 	// results
 	Paths, Infeasible, Forks, MaxDepth int
@@ -182,18 +184,61 @@ func (e *Engine) feasible(c *term.Term) bool {
 	if c.IsFalse() {
 		return false
 	}
+	// counterexample cache: a recent model that satisfies pc ∧ c settles it
+	for i := len(e.pool) - 1; i >= 0; i-- {
+		if e.modelSatisfies(e.pool[i], c) {
+			e.PoolHits++
+			if i != len(e.pool)-1 {
+				ev := e.pool[i]
+				copy(e.pool[i:], e.pool[i+1:])
+				e.pool[len(e.pool)-1] = ev
+			}
+			return true
+		}
+	}
 	e.sync()
 	var r smt.Result
-	if c.IsTrue() {
-		r = e.pipe.Check(e.Opt.FeasTimeout)
-	} else {
-		if e.pipe.Logic != "" && term.HasFP(c) {
-			e.restartPipe("")
-			e.sync()
-		}
-		r = e.pipe.CheckWith(c, e.Opt.FeasTimeout)
+	if e.pipe.Logic != "" && term.HasFP(c) {
+		e.restartPipe("")
+		e.sync()
 	}
+	e.pipe.Push()
+	if !c.IsTrue() {
+		e.pipe.Assert(c)
+	}
+	r = e.pipe.Check(e.Opt.FeasTimeout)
+	if r == smt.Sat {
+		if m, err := e.pipe.Model(e.vars()); err == nil {
+			e.addModel(m)
+		}
+	}
+	e.pipe.Pop()
 	return r != smt.Unsat
+}
+
+func (e *Engine) addModel(m map[string]smt.ModelVal) {
+	vars := map[string]term.Val{}
+	for name, mv := range m {
+		vars[name] = term.Val{U: mv.U, F: mv.F}
+	}
+	e.pool = append(e.pool, term.NewEvaluator(vars))
+	if len(e.pool) > 12 {
+		e.pool = e.pool[1:]
+	}
+}
+
+func (e *Engine) modelSatisfies(ev *term.Evaluator, c *term.Term) bool {
+	v, ok := ev.Eval(c)
+	if !ok || v.U == 0 {
+		return false
+	}
+	for i := len(e.pc) - 1; i >= 0; i-- {
+		v, ok := ev.Eval(e.pc[i])
+		if !ok || v.U == 0 {
+			return false
+		}
+	}
+	return true
 }
 
 func (e *Engine) Branch(c *term.Term) bool {
@@ -482,14 +527,14 @@ func (e *Engine) decide(extra *term.Term, label string) (smt.Result, map[string]
 		m, err := e.pipe.Model(e.vars())
 		e.pipe.Pop()
 		if err == nil {
-			return smt.Sat, m, "z3-pipe", ""
+			return smt.Sat, m, "z3new-pipe", ""
 		}
 		r = smt.Unknown
 	} else {
 		e.pipe.Pop()
 	}
 	if r == smt.Unsat {
-		return smt.Unsat, nil, "z3-pipe", ""
+		return smt.Unsat, nil, "z3new-pipe", ""
 	}
 	as := append(append([]*term.Term{}, e.pc...), extra)
 	file := e.writeScript(as, label)
